@@ -1,0 +1,6 @@
+//go:build !verif
+// +build !verif
+
+package scheduler
+
+func verifAt(point string, args ...interface{}) {}
